@@ -54,12 +54,13 @@ func init() {
 		{"augassign_operator", func(c *lctx, g *generator) bool { return !c.lambda && (!c.top || g.globalReassign) }, mkAugOp},
 		{"setindex", notLambda, mkSetIndex},
 		{"setfield", notLambda, mkSetField},
+		// x[i] op= y and x.f op= y: failing read and failing write-back are both at '[' / '.', the operator at op=
+		{"augassign_target", notLambda, mkAugTarget},
 		{"arity", always, mkArity},
 		{"recursion", func(c *lctx, _ *generator) bool { return c.selfCall != nil }, mkRecursion},
 		// outside the property's list: position only demanded inside the operation's span
 		{"loose_slice", always, mkSlice},
 		{"loose_dict_duplicate", always, mkDictDup},
-		{"loose_augassign_target", notLambda, mkAugTarget},
 		{"loose_load", func(c *lctx, _ *generator) bool { return c.top }, mkLoad},
 	}
 }
@@ -543,18 +544,86 @@ func mkSetField(g *generator, ctx *lctx) site {
 	return site{stmt: s, pos: &lhs.Dot, msg: "can't assign to .f field"}
 }
 
+// calleeBody is the body of a function that is never entered (its arguments do not bind). The callee frame of
+// such an error still has pc 0, so it reports Funcode.Position(0): the position attached to the first emitted
+// instruction, which is the def keyword (the compiler's initial position) unless a setPos precedes the first emit.
+// The templates have a known answer; all have several positioned instructions on later lines.
+func (g *generator) calleeBody(defPos *syntax.Position, a string) ([]syntax.Stmt, *syntax.Position) {
+	m := g.fresh("m")
+	var first []syntax.Stmt
+	wpos := defPos
+	switch g.r.Intn(6) {
+	case 0: // NONE carries no position of its own
+		first = []syntax.Stmt{assign(id(m), id("None"))}
+	case 1: // the identifier's position replaces the initial one before the first emit
+		x := id(a)
+		first = []syntax.Stmt{assign(id(m), x)}
+		wpos = &x.NamePos
+	case 2: // pass emits nothing (a doc string is not used here: written with redundant parentheses it is compiled)
+		x := id(a)
+		first = []syntax.Stmt{pass(), assign(id(m), list(x))}
+		wpos = &x.NamePos
+	case 3: // a constant is emitted first
+		first = []syntax.Stmt{assign(id(m), bin(syntax.PLUS, ilit(1), id(a)))}
+	case 4:
+		h := id("hid")
+		first = []syntax.Stmt{assign(id(m), call(h, id(a)))}
+		wpos = &h.NamePos
+	default:
+		first = []syntax.Stmt{assign(id(m), slit("s"))}
+	}
+	w, u := g.fresh("m"), g.fresh("m")
+	rest := []syntax.Stmt{
+		assign(id(w), id(a)),
+		assign(id(u), bin(syntax.STAR, id(w), id(a))),
+		&syntax.IfStmt{Cond: bin(syntax.LT, id(u), ilit(0)), True: []syntax.Stmt{assign(id(u), &syntax.UnaryExpr{Op: syntax.MINUS, X: id(u)})}},
+		&syntax.ReturnStmt{Result: call(id("hid"), id(u))},
+	}
+	for _, s := range rest[:1+g.r.Intn(2)] {
+		if g.r.Intn(2) == 0 {
+			g.p.before[s] = g.gapText(1 + g.r.Intn(20))
+		}
+	}
+	return append(first, rest...), wpos
+}
+
+// warmUp returns e preceded by a call chain that ran and returned at the depths the failing call will use, so
+// that the frame objects it gets are recycled ones.
+func (g *generator) warmUp(ctx *lctx, st site) site {
+	warm := call(id("hid2"), g.iv(ctx))
+	if ctx.lambda || g.r.Intn(2) == 0 {
+		st.expr = &syntax.TupleExpr{List: []syntax.Expr{warm, st.expr}}
+	} else {
+		st.pre = append(st.pre, assign(id(g.fresh("r")), warm))
+	}
+	return st
+}
+
 func mkArity(g *generator, ctx *lctx) site {
 	if g.r.Intn(4) == 0 {
 		// the callee is a lambda
-		lam := &syntax.LambdaExpr{Params: []syntax.Expr{id("a"), id("b")}, Body: id("a")}
+		lam := &syntax.LambdaExpr{Params: []syntax.Expr{id("a"), id("b")}}
+		wpos := &lam.Lambda
+		switch g.r.Intn(3) {
+		case 0:
+			x := id("a")
+			lam.Body = list(x, bin(syntax.PLUS, id("b"), id("a")), call(id("hid"), id("b")))
+			wpos = &x.NamePos
+		case 1:
+			lam.Body = bin(syntax.PLUS, ilit(1), bin(syntax.STAR, id("a"), call(id("hid"), id("b"))))
+		default:
+			h := id("hid")
+			lam.Body = bin(syntax.PLUS, call(h, id("a")), bin(syntax.MINUS, id("b"), id("a")))
+			wpos = &h.NamePos
+		}
 		c := call(lam, g.iv(ctx))
-		return site{expr: c, pos: &c.Lparen, extra: []*want{{Name: "lambda", Any: true, Def: &lam.Lambda, Role: "arity-callee"}}, sub: "lambda", msg: "missing"}
+		st := site{expr: c, pos: &c.Lparen, extra: []*want{{Name: "lambda", Pos: wpos, Callee: true, FnPos: &lam.Lambda, Role: "arity-callee"}}, sub: "lambda", msg: "missing"}
+		return g.warmUp(ctx, st)
 	}
 	name := g.fresh("h")
-	d := &syntax.DefStmt{Name: id(name), Params: []syntax.Expr{id("a"), id("b")}, Body: []syntax.Stmt{&syntax.ReturnStmt{Result: id("a")}}}
-	if g.r.Intn(2) == 0 {
-		d.Body = []syntax.Stmt{pass()}
-	}
+	d := &syntax.DefStmt{Name: id(name), Params: []syntax.Expr{id("a"), id("b")}}
+	body, wpos := g.calleeBody(&d.Def, "a")
+	d.Body = body
 	g.topDefs = append(g.topDefs, d)
 	var args []syntax.Expr
 	var sub, msg string
@@ -569,14 +638,30 @@ func mkArity(g *generator, ctx *lctx) site {
 		args, sub, msg = []syntax.Expr{ilit(1), ilit(2), named("a", g.iv(ctx))}, "multiple-values", "multiple values"
 	}
 	c := call(id(name), args...)
-	return site{expr: c, pos: &c.Lparen, extra: []*want{{Name: name, Any: true, Def: &d.Def, Role: "arity-callee"}}, sub: sub, msg: msg}
+	st := site{expr: c, pos: &c.Lparen, extra: []*want{{Name: name, Pos: wpos, Callee: true, FnPos: &d.Def, Role: "arity-callee"}}, sub: sub, msg: msg}
+	return g.warmUp(ctx, st)
 }
 
 func mkRecursion(g *generator, ctx *lctx) site {
 	g.needNoRecursion = true
 	e := ctx.selfCall()
 	c := e.(*syntax.CallExpr)
-	return site{expr: c, pos: &c.Lparen, extra: []*want{{Name: ctx.name, Any: true, Def: ctx.fnPos, Role: "recursion-callee"}}, msg: "called recursively"}
+	// the function's own body starts with a statement whose first instruction has a known position (see calleeBody)
+	wpos := ctx.fnPos
+	var first syntax.Stmt
+	m := g.fresh("m")
+	switch g.r.Intn(3) {
+	case 0:
+		first = assign(id(m), id("None"))
+	case 1:
+		x := id(ctx.ints[0])
+		first = assign(id(m), x)
+		wpos = &x.NamePos
+	default:
+		first = assign(id(m), bin(syntax.PLUS, ilit(1), id(ctx.ints[0])))
+	}
+	st := site{expr: c, first: first, pos: &c.Lparen, extra: []*want{{Name: ctx.name, Pos: wpos, Callee: true, FnPos: ctx.fnPos, Role: "recursion-callee"}}, msg: "called recursively"}
+	return g.warmUp(ctx, st)
 }
 
 func mkSlice(g *generator, ctx *lctx) site {
@@ -607,20 +692,61 @@ func mkDictDup(g *generator, ctx *lctx) site {
 }
 
 func mkAugTarget(g *generator, ctx *lctx) site {
-	var lhs syntax.Expr
-	var sub string
-	switch g.r.Intn(4) {
-	case 0:
-		lhs, sub = &syntax.IndexExpr{X: list(ilit(0)), Y: ilit(5)}, "index-read"
-	case 1:
-		lhs, sub = &syntax.IndexExpr{X: &syntax.ParenExpr{X: &syntax.TupleExpr{List: []syntax.Expr{ilit(1)}}}, Y: ilit(0)}, "index-write"
-	case 2:
-		lhs, sub = &syntax.DotExpr{X: g.ivar(ctx), Name: id("f")}, "attr-read"
-	default:
-		lhs, sub = &syntax.IndexExpr{X: &syntax.DictExpr{}, Y: slit("k")}, "key-read"
+	op := pick(g.r, syntax.PLUS_EQ, syntax.PLUS_EQ, syntax.MINUS_EQ, syntax.STAR_EQ, syntax.PIPE_EQ)
+	one := func() syntax.Expr { return ilit(1) }
+	aug := func(lhs, rhs syntax.Expr) *syntax.AssignStmt { return &syntax.AssignStmt{Op: op, LHS: lhs, RHS: rhs} }
+	if g.r.Intn(10) < 3 {
+		// the read fails
+		var lhs syntax.Expr
+		var pos *syntax.Position
+		var sub string
+		switch g.r.Intn(3) {
+		case 0:
+			e := &syntax.IndexExpr{X: g.wideList(ilit(0)), Y: ilit(5)}
+			lhs, pos, sub = e, &e.Lbrack, "index-read"
+		case 1:
+			e := &syntax.DotExpr{X: g.ivar(ctx), Name: id("f")}
+			lhs, pos, sub = e, &e.Dot, "attr-read"
+		default:
+			e := &syntax.IndexExpr{X: &syntax.DictExpr{}, Y: slit("k")}
+			lhs, pos, sub = e, &e.Lbrack, "key-read"
+		}
+		s := aug(lhs, g.iv(ctx))
+		return site{stmt: s, pos: pos, sub: sub}
 	}
-	s := &syntax.AssignStmt{Op: syntax.PLUS_EQ, LHS: lhs, RHS: g.iv(ctx)}
-	return site{stmt: s, span: s, sub: sub}
+	// read and operator succeed, the write-back fails
+	switch g.r.Intn(7) {
+	case 0:
+		e := &syntax.IndexExpr{X: &syntax.TupleExpr{List: []syntax.Expr{ilit(1), ilit(2)}}, Y: ilit(g.r.Int63n(2))}
+		return site{stmt: aug(e, g.iv(ctx)), pos: &e.Lbrack, sub: "write-tuple", msg: "does not support item assignment"}
+	case 1:
+		op = syntax.PLUS_EQ
+		e := &syntax.IndexExpr{X: slit("abc"), Y: ilit(1)}
+		return site{stmt: aug(e, slit("x")), pos: &e.Lbrack, sub: "write-string", msg: "does not support item assignment"}
+	case 2:
+		e := &syntax.IndexExpr{X: id("flist"), Y: ilit(g.r.Int63n(2))}
+		return site{stmt: aug(e, g.iv(ctx)), pos: &e.Lbrack, sub: "write-frozen-list", msg: "frozen"}
+	case 3:
+		e := &syntax.IndexExpr{X: id("fdict"), Y: slit("k")}
+		return site{stmt: aug(e, g.iv(ctx)), pos: &e.Lbrack, sub: "write-frozen-dict", msg: "frozen"}
+	case 4:
+		// a list being iterated over
+		v := g.wideName("l")
+		e := &syntax.IndexExpr{X: id(v), Y: ilit(0)}
+		loop := &syntax.ForStmt{Vars: id(g.fresh("fv")), X: id(v), Body: []syntax.Stmt{g.padStmt(ctx, false), aug(e, g.iv(ctx))}}
+		return site{stmt: loop, pre: []syntax.Stmt{assign(id(v), list(one(), ilit(2)))}, pos: &e.Lbrack, sub: "write-list-during-iteration", msg: "during iteration"}
+	case 5:
+		// a dict being iterated over (the key exists: only the store is refused)
+		v := g.fresh("d")
+		k := g.fresh("fv")
+		e := &syntax.IndexExpr{X: id(v), Y: id(k)}
+		loop := &syntax.ForStmt{Vars: id(k), X: id(v), Body: []syntax.Stmt{aug(e, g.iv(ctx))}}
+		d := &syntax.DictExpr{List: []syntax.Expr{&syntax.DictEntry{Key: slit("a"), Value: one()}, &syntax.DictEntry{Key: slit("b"), Value: ilit(2)}}}
+		return site{stmt: loop, pre: []syntax.Stmt{assign(id(v), d)}, pos: &e.Lbrack, sub: "write-dict-during-iteration", msg: "during iteration"}
+	default:
+		e := &syntax.DotExpr{X: id("rec"), Name: id("a")}
+		return site{stmt: aug(e, g.iv(ctx)), pos: &e.Dot, sub: "write-attr-struct", msg: "can't assign to .a field"}
+	}
 }
 
 func mkLoad(g *generator, ctx *lctx) site {
